@@ -1,4 +1,136 @@
-(** C13 — placeholder while the proofs are being written. *)
-From Teleport Require Import Base.Bytes Model.Genesis.
-Example C13_placeholder : sorted [] = true.
-Proof. reflexivity. Qed.
+(** C13 — Genesis export/import round trip preserves all module state.
+    Only statements here; proofs are in Proofs/Genesis*.v. *)
+From Teleport Require Import Base.Bytes Base.Outcome Base.AList Base.Fmt Gen.KeysGen Model.Keys Model.Genesis Model.GenesisCheck.
+From Teleport Require Import Proofs.GenesisStore Proofs.GenesisKeys Proofs.GenesisXibc Proofs.GenesisAgg Proofs.Genesis Proofs.GenesisExample.
+From Teleport Require Model.Rvesting.
+Local Open Scope N_scope.
+
+(** For EVERY well-formed state of the three modules (any mix of client types, any consensus heights and
+    revision numbers — all byte patterns —, any packet traffic, any relayers, any registry content, any
+    parameters; codecs, SHA-256 and HexToAddress arbitrary functions): ExportGenesis returns a genesis (no
+    panic) and InitGenesis of that genesis into empty stores rebuilds the state — both KV stores key by key
+    and the parameters. *)
+Theorem C13_export_import_id :
+  forall (CS CONS : Type) (cs_unmarshal : bytes -> option CS) (cs_marshal : CS -> bytes) (cs_type : CS -> ctype)
+         (cons_unmarshal : bytes -> option CONS) (cons_marshal : CONS -> bytes)
+         (rel_unmarshal : bytes -> option relayer) (rel_marshal : relayer -> bytes)
+         (tp_unmarshal : bytes -> option token_pair) (tp_marshal : token_pair -> bytes)
+         (sha256 hex_to_address : bytes -> bytes) (st : mstate),
+    wf_state CS CONS cs_unmarshal cs_marshal cs_type cons_unmarshal cons_marshal rel_unmarshal rel_marshal
+             tp_unmarshal tp_marshal sha256 hex_to_address st = true ->
+    exists g, export CS CONS cs_unmarshal cs_type cons_unmarshal rel_unmarshal tp_unmarshal st = Ok g /\
+              import CS CONS cs_marshal cons_marshal rel_marshal tp_marshal sha256 hex_to_address g = Ok st.
+Proof. exact export_import_id. Qed.
+Print Assumptions C13_export_import_id.
+
+(** Exporting the re-imported state yields the same genesis again. *)
+Theorem C13_export_idempotent :
+  forall (CS CONS : Type) (cs_unmarshal : bytes -> option CS) (cs_marshal : CS -> bytes) (cs_type : CS -> ctype)
+         (cons_unmarshal : bytes -> option CONS) (cons_marshal : CONS -> bytes)
+         (rel_unmarshal : bytes -> option relayer) (rel_marshal : relayer -> bytes)
+         (tp_unmarshal : bytes -> option token_pair) (tp_marshal : token_pair -> bytes)
+         (sha256 hex_to_address : bytes -> bytes) (st : mstate) (g : genesis CS CONS),
+    wf_state CS CONS cs_unmarshal cs_marshal cs_type cons_unmarshal cons_marshal rel_unmarshal rel_marshal
+             tp_unmarshal tp_marshal sha256 hex_to_address st = true ->
+    export CS CONS cs_unmarshal cs_type cons_unmarshal rel_unmarshal tp_unmarshal st = Ok g ->
+    exists st', import CS CONS cs_marshal cons_marshal rel_marshal tp_marshal sha256 hex_to_address g = Ok st' /\
+                export CS CONS cs_unmarshal cs_type cons_unmarshal rel_unmarshal tp_unmarshal st' = Ok g.
+Proof. exact export_idempotent. Qed.
+Print Assumptions C13_export_idempotent.
+
+(** The xibc store alone (client and packet sub-modules share it). *)
+Theorem C13_xibc_round_trip :
+  forall (CS CONS : Type) (cs_unmarshal : bytes -> option CS) (cs_marshal : CS -> bytes) (cs_type : CS -> ctype)
+         (cons_unmarshal : bytes -> option CONS) (cons_marshal : CONS -> bytes)
+         (rel_unmarshal : bytes -> option relayer) (rel_marshal : relayer -> bytes) (s : store),
+    wf_xibc CS CONS cs_unmarshal cs_marshal cs_type cons_unmarshal cons_marshal rel_unmarshal rel_marshal s = true ->
+    exists g, export_xibc CS CONS cs_unmarshal cs_type cons_unmarshal rel_unmarshal s = Ok g /\
+              import_xibc CS CONS cs_marshal cons_marshal rel_marshal g = Ok s.
+Proof. exact xibc_round_trip. Qed.
+Print Assumptions C13_xibc_round_trip.
+
+(** The aggregate store alone. *)
+Theorem C13_agg_round_trip :
+  forall (tp_unmarshal : bytes -> option token_pair) (tp_marshal : token_pair -> bytes) (sha256 hex_to_address : bytes -> bytes) (s : store),
+    wf_agg tp_unmarshal tp_marshal sha256 hex_to_address s = true ->
+    exists ps, export_agg tp_unmarshal s = Ok ps /\ import_agg tp_marshal sha256 hex_to_address ps = Ok s.
+Proof. exact agg_round_trip. Qed.
+Print Assumptions C13_agg_round_trip.
+
+(** The generic core: a sequence of store.Set calls that writes exactly the entries of a strictly sorted store —
+    in any order, with any repetitions — rebuilds that store. *)
+Theorem C13_writes_rebuild_store : forall w s,
+  sorted s = true -> (forall kv, In kv w -> In kv s) -> (forall kv, In kv s -> In kv w) -> apply_writes w [] = s.
+Proof. exact apply_writes_exact. Qed.
+Print Assumptions C13_writes_rebuild_store.
+
+(** "Well-formed" covers what the modules write.  (1) The fixed-offset parsers are exact for EVERY key: what
+    IterateClients / IterateConsensusStates read from a key renders back to that key. *)
+Theorem C13_parsers_exact : forall k name h,
+  (iter_clients k = Got name -> k = full_client_state_key name) /\
+  (iter_consensus_states k = Got (name, h) -> k = full_consensus_state_key name h /\ valid_height h = true).
+Proof.
+  intros k name h. split; intro H.
+  - exact (proj1 (iter_clients_exact k name H)).
+  - destruct (iter_consensus_states_exact k name h H) as [A [_ B]]. split; assumption.
+Qed.
+Print Assumptions C13_parsers_exact.
+
+(** (2) Consensus state keys of ALL heights and revision numbers, and client state keys, are classified as such. *)
+Theorem C13_client_keys_classified : forall name h,
+  no_sep name = true -> valid_height h = true ->
+  parse_client_key (full_consensus_state_key name h) = Some (name, consensus_state_key h) /\
+  parse_consensus_state_key (consensus_state_key h) = Some h /\
+  parse_client_key (full_client_state_key name) = Some (name, host_KeyClientState).
+Proof. exact client_keys_classified. Qed.
+Print Assumptions C13_client_keys_classified.
+
+(** (3) The metadata keys of the Tendermint client (processed time, iteration key) of ANY height are exported
+    for a Tendermint client and are neither client state nor consensus state keys. *)
+Theorem C13_tm_metadata_paths : forall h,
+  metadata_path TM (tm_processed_time_key h) = true /\ metadata_path TM (tm_iteration_key h) = true /\
+  parse_consensus_state_key (tm_processed_time_key h) = None /\
+  bytes_eqb (tm_processed_time_key h) host_KeyClientState = false /\
+  parse_consensus_state_key (tm_iteration_key h) = None /\
+  bytes_eqb (tm_iteration_key h) host_KeyClientState = false.
+Proof. exact tm_metadata_paths. Qed.
+Print Assumptions C13_tm_metadata_paths.
+
+(** (4) Packet keys of valid (source, destination, sequence) and send-sequence keys are read back. *)
+Theorem C13_packet_keys_classified : forall t a b,
+  valid_triple t = true -> valid_chain_name a = true -> valid_chain_name b = true ->
+  wf_packet_key packet_ack_key (packet_ack_key t) = true /\
+  wf_packet_key packet_commitment_key (packet_commitment_key t) = true /\
+  wf_packet_key packet_receipt_key (packet_receipt_key t) = true /\
+  parse_path (next_seq_send_key a b) = Ok (a, b).
+Proof. exact packet_keys_classified. Qed.
+Print Assumptions C13_packet_keys_classified.
+
+(** (5) Values written by the keepers are canonical when the codecs round-trip (the only codec assumption). *)
+Theorem C13_written_values_canonical :
+  forall (CS CONS : Type) (cs_unmarshal : bytes -> option CS) (cs_marshal : CS -> bytes)
+         (cons_unmarshal : bytes -> option CONS) (cons_marshal : CONS -> bytes),
+    (forall x, cs_unmarshal (cs_marshal x) = Some x) -> (forall x, cons_unmarshal (cons_marshal x) = Some x) ->
+    (forall x, canonical_cs CS cs_unmarshal cs_marshal (cs_marshal x) = true) /\
+    (forall x, canonical_cons CONS cons_unmarshal cons_marshal (cons_marshal x) = true).
+Proof.
+  intros CS CONS cu cm nu nm H1 H2. split; intro x; [unfold canonical_cs; rewrite H1 | unfold canonical_cons; rewrite H2]; apply bytes_eqb_refl.
+Qed.
+Print Assumptions C13_written_values_canonical.
+
+(** Non-vacuity: a concrete state with consensus heights 0-47, 0-303 and revision 47, three client types whose
+    names are prefixes of one another, an ETH client at block 0, relayer, packets, a disabled two-denomination
+    pair: it is well-formed, its export validates, and the round trip is the identity. *)
+Example C13_nonvacuous :
+  m_wf_xibc T0 s0 = true /\ m_wf_agg T0 a0 = true /\ length s0 = 20%nat /\
+  match m_export T0 st0 with
+  | Ok g => m_validate_xibc T0 g = true /\ m_validate_agg T0 g = true /\ m_validate_rv g = true /\
+            length (g_consensus _ _ (g_client _ _ g)) = 2%nat /\
+            match m_import T0 g with
+            | Ok st => store_eqb (st_xibc st) s0 = true /\ store_eqb (st_agg st) a0 = true /\
+                       (exists g2, m_export T0 st = Ok g2 /\ genesis_eqb g g2 = true)
+            | _ => False
+            end
+  | _ => False
+  end.
+Proof. vm_compute. repeat split; try reflexivity. eexists. split; reflexivity. Qed.
